@@ -37,7 +37,7 @@ func pickProofs(c *mc.Ctx, keys []keyT, alphas []named) []proofCase {
 					continue // quick: one format per (key, alpha)
 				}
 				k, al := keys[ki%len(keys)], alphas[ai%len(alphas)]
-				out = append(out, proofCase{k, al, f, refvrf.Prove(f, k.ref, al.b)})
+				out = append(out, proofCase{k, al, f, proveRef(f, k.ref, al.b)})
 			}
 		}
 	}
@@ -191,8 +191,8 @@ func runDecode(c *mc.Ctx, keys []keyT, alphas []named) {
 	al, al2 := alphas[2%len(alphas)], alphas[5%len(alphas)]
 	for _, f := range formats {
 		f := f
-		tr := refvrf.Prove(f, k.ref, al.b)
-		G := gammaAlphabet(c, tr, refvrf.Prove(f, k.ref, al2.b))
+		tr := proveRef(f, k.ref, al.b)
+		G := gammaAlphabet(c, tr, proveRef(f, k.ref, al2.b))
 		S := sAlphabet(c, tr.S)
 		C := []gammaStr{{ref.LEn(tr.C, 16), "c"}}
 		if c.Thorough {
@@ -291,7 +291,7 @@ func grind(f refvrf.Format, pkStr []byte, x *big.Int, ta ref.Point, h ref.Point,
 	}
 	for j := 0; j < 200; j++ {
 		k := ref.SMod(ref.FromLE(ref.SHA512([]byte("C15 grind"), []byte(label), pkStr, hEnc, gEnc, []byte{byte(f), byte(j)})))
-		ub, vb := refh2c.Mul(ref.Base, k), refh2c.Mul(h, k)
+		ub, vb := refvrf.MulBase(k), refh2c.Mul(h, k)
 		vEncs := make([][]byte, len(wvs))
 		for n, wv := range wvs {
 			vEncs[n] = vb.Add(wv).Encode()
@@ -459,7 +459,7 @@ func runKeys(c *mc.Ctx, keys []keyT, alphas []named) {
 	}
 	for _, f := range formats {
 		f := f
-		tr := refvrf.Prove(f, k.ref, al.b)
+		tr := proveRef(f, k.ref, al.b)
 		var cases []kc
 		for _, n := range []int{0, 1, 31, 33, 64} {
 			cases = append(cases, kc{append(append([]byte{}, k.pk...), k.pk...)[:n], "keys/pk-length", fmt.Sprintf("length %d", n)})
